@@ -13,7 +13,7 @@ func init() {
 		ID: "C16", Level: "exploration",
 		Rule: "four case families over one index space. names: (measurement, related measurement) pairs through GCETcbObjectName (SNP, TDX) and GCETcbURL against the monitor's own name model and inverse; " +
 			"events: a real snapshot endorse run of a generated image, its <image>.evts.pb decoded by an independent SP800-155 decoder and by the repository's, then fed through a generated boot event log into extract.Endorsement; " +
-			"precedence: one point of the product {event-log shape} x {manufacturer filter} x {quote format x entry} x {provider} x {getter} x {forced fetch} run through extract.Endorsement (twice) and, for a third, through the extract command; " +
+			"precedence: one point of the product {event-log shape} x {manufacturer filter} x {quote format x entry} x {provider} x {getter} x {forced fetch}, its event log kept on a drawn medium (regular file, named pipe, symbolic link to either), run through extract.Endorsement (twice) and, for a third, through the extract command; " +
 			"the checker works on the recorded URL list and the returned bytes; confine: (GUID, UCS-2 name) through EfiVarFSReader.ReadVariable and through an event-log variable locator against a scratch efivarfs tree with symlinks and outside canaries. " +
 			"non-trivial = distinct (family, input class, outcome class) cells in which an oracle rule had something to decide",
 		Assumptions: []string{
@@ -22,6 +22,7 @@ func init() {
 			"a URI locator selected by the documented precedence (raw > variable > device path > URI among manufacturer-matching events) is fetched verbatim and is not judged as a missed local source",
 			"rejections are counted, not judged; under forced fetch with a getter and a 48-byte measurement in hand the request list must be exactly that measurement's URL and a getter answer is what comes back; without such a measurement only the URLs are judged (none may be requested)",
 			"boot event logs: three quarters are short, one quarter (and every log of the events family) carries 10-400 ordinary events with SHA-1/256/384 digest sets and data sizes up to 64 KiB before and after the RIM events",
+			"the event log is evidence wherever it is kept: half of the generated logs (all three families that feed a log to extract.Endorsement) are on a regular file, the rest on a named pipe - the stand-in for the securityfs file /sys/kernel/security/tpm0/binary_bios_measurements, whose stat size is 0 whatever it holds - or behind a relative symbolic link to either; a pipe hands the whole log over in one write on open and then ends, and a case whose pipe did not take the log whole is skipped and counted, never judged; logs larger than the largest pipe this process may size fall back to a regular file",
 			"quotes are built from go-sev-guest's test chain and go-tdx-guest's sample quote in the documented formats; a QuoteV4 proto (not a documented format) carries no expectation about recognition; arbitrary bytes belong to C07",
 			"TOCTOU symlink swaps are schedules and are not generated; the scratch tree is static during a case",
 			"the strace monitor runs in the thorough tier only and is skipped with a note when strace cannot start",
@@ -90,6 +91,7 @@ func run(c *core.Ctx) {
 	c.Floor("events/emitted-events-parsed-and-led-to-the-variable", evOK > 0)
 	c.Floor("precedence/event-log-evidence-returned", ps.local > 0)
 	c.Floor("precedence/event-log-evidence-returned-from-beyond-4KiB-of-a-long-log", ps.localDeep > 0)
+	c.Floor("precedence/event-log-evidence-returned-from-a-log-on-a-named-pipe", ps.localPipe > 0)
 	c.Floor("precedence/certificate-table-entry-returned", ps.entry > 0)
 	c.Floor("precedence/some-fetch-observed", ps.fetched > 0)
 	c.Floor("precedence/uri-locator-selected", ps.uriSel > 0)
